@@ -136,14 +136,15 @@ static void canon_mask(const universe *u, uint64_t mask, mreg *out)
     }
 }
 
-enum { MAP_SMALL, MAP_NEG, MAP_EXTREME };
+enum { MAP_SMALL, MAP_NEG, MAP_EXTREME, MAP_EXTREME_LO, MAP_EXTREME_HI };   /* _LO/_HI: the enumerated block of cells touches the minimum / maximum coordinate itself */
 
 static universe *make_universe(int ix, int iy, int map, int bits)
 {
     universe *u = calloc(1, sizeof *u);
     int64_t MIN = bits == 16 ? INT16_MIN : INT32_MIN, MAX = bits == 16 ? INT16_MAX : INT32_MAX;
     u->gx = ix + 2; u->gy = iy + 2;
-    static const char *mn[] = { "small", "neg", "extreme" };
+    static const char *mn[] = { "small", "neg", "extreme", "extreme-lo", "extreme-hi" };
+    int off = map == MAP_EXTREME_LO ? 0 : map == MAP_EXTREME_HI ? 2 : 1;
     snprintf(u->name, sizeof u->name, "%dx%d/%s", ix, iy, mn[map]);
     for (int a = 0; a < 2; a++) {
         int g = a ? u->gy : u->gx; int64_t *L = a ? u->Y : u->X;
@@ -161,7 +162,7 @@ static universe *make_universe(int ix, int iy, int map, int bits)
     u->inner = malloc(sizeof(uint64_t) * u->ninner);
     for (uint64_t m = 0; m < u->ninner; m++) {
         uint64_t f = 0;
-        for (int j = 0; j < iy; j++) for (int i = 0; i < ix; i++) if (m >> (j * ix + i) & 1) f |= (uint64_t)1 << ((j + 1) * u->gx + (i + 1));
+        for (int j = 0; j < iy; j++) for (int i = 0; i < ix; i++) if (m >> (j * ix + i) & 1) f |= (uint64_t)1 << ((j + off) * u->gx + (i + off));
         u->inner[m] = f;
     }
     for (int j = 0; j < u->gy; j++) for (int i = 0; i < u->gx; i++) if ((i + j) & 1) u->checker |= (uint64_t)1 << (j * u->gx + i);
@@ -258,6 +259,26 @@ static void conv_case(uint64_t idx, void *vctx)
     if (!vf_in_confirm) vf_outcome(vf_mix(A, 1632));
 }
 
+static void conv_big_case(uint64_t idx, void *vctx)
+{
+    conv_ctx *c = vctx; const universe *u = c->u16;
+    uint64_t full = box_mask(u, 0, 0, u->gx, u->gy);
+    uint64_t A = (idx & 1) ? (full & ~u->checker) : u->checker; int cons = (int)(idx >> 1);
+    mreg ea; canon_mask(u, A, &ea);
+    char what[300];
+    pixman_region16_t r16, back16; pixman_region32_t r32;
+    r16_construct(u, A, cons, &r16); pixman_region32_init(&r32); pixman_region_init(&back16);
+    int ret = pixman_region32_copy_from_region16(&r32, &r16); vf_count_transitions(1);
+    snprintf(what, sizeof what, "%s region32_copy_from_region16 of the %d-rectangle checkerboard %#llx[%s]", u->name, ea.n, (unsigned long long)A, r16_cons_name(A, cons));
+    r32_expect_true(ret, what); r32_judge(&r32, &ea, what);
+    ret = pixman_region16_copy_from_region32(&back16, &r32); vf_count_transitions(1);
+    snprintf(what, sizeof what, "%s region16_copy_from_region32 of the %d-rectangle checkerboard %#llx[%s]", u->name, ea.n, (unsigned long long)A, r16_cons_name(A, cons));
+    r16_expect_true(ret, what); r16_judge(&back16, &ea, what);
+    pixman_region32_fini(&r32); pixman_region_fini(&back16); pixman_region_fini(&r16);
+    vf_count_eval(1); vf_count_nontrivial(1);
+    if (!vf_in_confirm) vf_outcome(vf_mix(A, 3216));
+}
+
 /* ---------- init_from_image (C07): every a1 bitmap of the shape list ---------- */
 typedef struct { int w, h; int nfree; int freecol[20]; } img_ctx;
 
@@ -338,6 +359,8 @@ int main(int argc, char **argv)
         { 3, 3, MAP_SMALL,   3, N_CONS, N_CONS, N_CONS },
         { 3, 3, MAP_EXTREME, 2, N_CONS, N_CONS, N_CONS },
         { 3, 3, MAP_NEG,     1, 2,      N_CONS, N_CONS },
+        { 3, 3, MAP_EXTREME_LO, 1, N_CONS, 2,   N_CONS },
+        { 3, 3, MAP_EXTREME_HI, 1, N_CONS, 2,   N_CONS },
         { 4, 2, MAP_NEG,     2, N_CONS, N_CONS, N_CONS },
         { 2, 4, MAP_SMALL,   2, N_CONS, N_CONS, N_CONS },
         { 4, 3, MAP_SMALL,   0, 2,      2,      N_CONS },
@@ -390,7 +413,12 @@ int main(int argc, char **argv)
 #endif
 #if PROP == 5
     { universe *u = make_universe(3, 3, MAP_NEG, 16); conv_ctx c = { u }; vf_space_run("convert16<->32-3x3/neg", u->ninner * N_CONS, conv_case, &c);
-      universe *u2 = make_universe(4, 3, MAP_EXTREME, 16); conv_ctx c2 = { u2 }; vf_space_run("convert16<->32-4x3/extreme16", u2->ninner * 2, conv_case, &c2); }
+      universe *u2 = make_universe(4, 3, MAP_EXTREME, 16); conv_ctx c2 = { u2 }; vf_space_run("convert16<->32-4x3/extreme16", u2->ninner * 2, conv_case, &c2);
+      /* regions that touch the smallest / largest 16-bit coordinate itself */
+      universe *u3 = make_universe(3, 3, MAP_EXTREME_LO, 16); conv_ctx c3 = { u3 }; vf_space_run("convert16<->32-3x3/extreme16-lo", u3->ninner * N_CONS, conv_case, &c3);
+      universe *u4 = make_universe(3, 3, MAP_EXTREME_HI, 16); conv_ctx c4 = { u4 }; vf_space_run("convert16<->32-3x3/extreme16-hi", u4->ninner * N_CONS, conv_case, &c4);
+      /* more rectangles than the conversion's on-stack buffer (16): the 6x6 checkerboard and its complement */
+      universe *u5 = make_universe(4, 4, MAP_NEG, 16); conv_ctx c5 = { u5 }; vf_space_run("convert16<->32-6x6-checker", 2 * N_CONS, conv_big_case, &c5); }
 #endif
 #if PROP != 5
     {   /* a1 bitmaps: all bitmaps of small shapes; wide shapes with free bits at the word-boundary columns */
